@@ -156,6 +156,35 @@ pub fn generate(thorough: bool, seed: u64, out: &mut dyn Write) {
             }
         }
     }
+    // file names, several TargetInfo commands in one patch (the last one before a command is in
+    // force): the `.index` / `.index2` / `.dat` commands each under their own platform, in any order.
+    // One (category, expansion, chunk): all 125 platform triples x 6 orders; every (category,
+    // expansion, chunk): one triple with at least two platforms (thorough: 25 of the 125 triples)
+    for pi in 0..5u64 {
+        for pi2 in 0..5u64 {
+            for pd in 0..5u64 {
+                for ord in 0..6u64 {
+                    writeln!(out, "names2 4 1 0 {} {} {} {} {}", (pi + pi2 + pd + ord) % 8, pi, pi2, pd, ord).unwrap();
+                }
+            }
+        }
+    }
+    for (c, _) in CATEGORIES.iter() {
+        for ex in 0..10u64 {
+            for chunk in 0..10u64 {
+                let m = if thorough { 25 } else { 1 };
+                for _ in 0..m {
+                    let pi = rng.below(5);
+                    let mut pi2 = rng.below(5);
+                    let pd = rng.below(5);
+                    if pi == pi2 && pi2 == pd {
+                        pi2 = (pi2 + 1 + rng.below(4)) % 5;
+                    }
+                    writeln!(out, "names2 {} {} {} {} {} {} {} {}", c, ex, chunk, rng.below(8), pi, pi2, pd, rng.below(6)).unwrap();
+                }
+            }
+        }
+    }
     // repository ordering: permutations of subsets of {0 (base), 1..9}, up to 7 members
     let n = if thorough { 3000 } else { 300 };
     // all permutations of a few fixed sets
@@ -204,10 +233,21 @@ fn nums(f: &[&str]) -> Option<Vec<u64>> {
     f.iter().map(|s| s.parse().ok()).collect()
 }
 
-/// A minimal well-formed ZiPatch: header, TargetInfo(platform), AddData with zero blocks,
-/// HeaderUpdate for `.index` and `.index2`, EOF.  Layout as the format defines it (platform is a
-/// big-endian u16).  Only used to observe which files `ZiPatch::apply` touches.
-fn naming_patch(cat: u64, ex: u64, chunk: u64, plat: u64, dat: u64) -> Vec<u8> {
+/// one SQPK command of a naming patch
+#[derive(Clone, Copy)]
+enum NP {
+    /// TargetInfo(platform)
+    T(u64),
+    /// AddData with zero blocks at offset 0 of `.dat<dat>`
+    A(u64),
+    /// HeaderUpdate (index file, index header) for file id 0 (`.index`) / 2 (`.index2`)
+    H(u32),
+}
+
+/// A minimal well-formed ZiPatch: header, the given TargetInfo / AddData (zero blocks) / HeaderUpdate
+/// commands in order, EOF.  Layout as the format defines it (platform is a big-endian u16).  Only
+/// used to observe which files `ZiPatch::apply` touches.
+fn naming_patch_of(cat: u64, ex: u64, chunk: u64, parts: &[NP]) -> Vec<u8> {
     let mut p = vec![0x91];
     p.extend_from_slice(b"ZIPATCH");
     p.extend_from_slice(&[0x0d, 0x0a, 0x1a, 0x0a]);
@@ -221,37 +261,88 @@ fn naming_patch(cat: u64, ex: u64, chunk: u64, plat: u64, dat: u64) -> Vec<u8> {
         p.extend_from_slice(body);
         p.extend_from_slice(&[0, 0, 0, 0]); // crc32 (not checked)
     };
-    // T
-    let mut t = vec![0u8; 3];
-    t.extend_from_slice(&(plat as u16).to_be_bytes());
-    t.extend_from_slice(&(-1i16).to_be_bytes());
-    t.extend_from_slice(&0u16.to_be_bytes());
-    t.extend_from_slice(&0u16.to_be_bytes());
-    t.extend_from_slice(&0u64.to_le_bytes());
-    t.extend_from_slice(&0u64.to_le_bytes());
-    t.extend_from_slice(&[0u8; 96]);
-    sqpk(&mut p, b'T', &t);
-    // A: zero blocks at offset 0
-    let mut a = vec![0u8; 3];
-    a.extend_from_slice(&(cat as u16).to_be_bytes());
-    a.extend_from_slice(&sub.to_be_bytes());
-    a.extend_from_slice(&(dat as u32).to_be_bytes());
-    a.extend_from_slice(&0u32.to_be_bytes());
-    a.extend_from_slice(&0u32.to_be_bytes());
-    a.extend_from_slice(&0u32.to_be_bytes());
-    sqpk(&mut p, b'A', &a);
-    // H for index (file id 0) and index2 (file id 2)
-    for fid in [0u32, 2] {
-        let mut h = vec![b'I', b'I', 0];
-        h.extend_from_slice(&(cat as u16).to_be_bytes());
-        h.extend_from_slice(&sub.to_be_bytes());
-        h.extend_from_slice(&fid.to_be_bytes());
-        h.extend_from_slice(&[0u8; 1024]);
-        sqpk(&mut p, b'H', &h);
+    for part in parts {
+        match *part {
+            NP::T(plat) => {
+                let mut t = vec![0u8; 3];
+                t.extend_from_slice(&(plat as u16).to_be_bytes());
+                t.extend_from_slice(&(-1i16).to_be_bytes());
+                t.extend_from_slice(&0u16.to_be_bytes());
+                t.extend_from_slice(&0u16.to_be_bytes());
+                t.extend_from_slice(&0u64.to_le_bytes());
+                t.extend_from_slice(&0u64.to_le_bytes());
+                t.extend_from_slice(&[0u8; 96]);
+                sqpk(&mut p, b'T', &t);
+            }
+            NP::A(dat) => {
+                // zero blocks at offset 0
+                let mut a = vec![0u8; 3];
+                a.extend_from_slice(&(cat as u16).to_be_bytes());
+                a.extend_from_slice(&sub.to_be_bytes());
+                a.extend_from_slice(&(dat as u32).to_be_bytes());
+                a.extend_from_slice(&0u32.to_be_bytes());
+                a.extend_from_slice(&0u32.to_be_bytes());
+                a.extend_from_slice(&0u32.to_be_bytes());
+                sqpk(&mut p, b'A', &a);
+            }
+            NP::H(fid) => {
+                let mut h = vec![b'I', b'I', 0];
+                h.extend_from_slice(&(cat as u16).to_be_bytes());
+                h.extend_from_slice(&sub.to_be_bytes());
+                h.extend_from_slice(&fid.to_be_bytes());
+                h.extend_from_slice(&[0u8; 1024]);
+                sqpk(&mut p, b'H', &h);
+            }
+        }
     }
     p.extend_from_slice(&0u32.to_be_bytes());
     p.extend_from_slice(b"EOF_");
     p
+}
+
+/// The platform of the TargetInfo that precedes the real one in a `names` patch (a patch may name
+/// its target more than once: the **last** TargetInfo before a command is the one in force).  A
+/// function of the case's fields; always different from `plat`; `None` (one case in five) = the
+/// patch carries a single TargetInfo.
+fn decoy_platform(cat: u64, ex: u64, chunk: u64, plat: u64, dat: u64) -> Option<u64> {
+    let d = (cat + 2 * ex + 3 * chunk + 4 * dat) % 5;
+    if d == plat { None } else { Some(d) }
+}
+
+/// `names`: [TargetInfo(decoy)], TargetInfo(plat), AddData, HeaderUpdate `.index`, HeaderUpdate `.index2`,
+/// [TargetInfo(another platform)] — a TargetInfo acts on the commands behind it only, so the trailing
+/// one (one case in three) changes nothing
+fn naming_patch(cat: u64, ex: u64, chunk: u64, plat: u64, dat: u64) -> Vec<u8> {
+    let mut parts = vec![];
+    if let Some(d) = decoy_platform(cat, ex, chunk, plat, dat) {
+        parts.push(NP::T(d));
+    }
+    parts.extend_from_slice(&[NP::T(plat), NP::A(dat), NP::H(0), NP::H(2)]);
+    if (cat + ex + 2 * chunk + dat) % 3 == 0 {
+        parts.push(NP::T((plat + 1 + (cat + chunk) % 4) % 5));
+    }
+    naming_patch_of(cat, ex, chunk, &parts)
+}
+
+/// the six orders of (AddData, HeaderUpdate `.index`, HeaderUpdate `.index2`) of a `names2` patch
+const ORDERS: [[usize; 3]; 6] = [[0, 1, 2], [0, 2, 1], [1, 0, 2], [1, 2, 0], [2, 0, 1], [2, 1, 0]];
+
+/// `names2`: the three commands in the order `ord`, each under its own platform — a TargetInfo is
+/// written in front of a command whenever its platform differs from the one in force (and in front
+/// of the first one), so one patch writes names of up to three platforms.
+fn naming_patch_split(cat: u64, ex: u64, chunk: u64, dat: u64, pi: u64, pi2: u64, pd: u64, ord: u64) -> Vec<u8> {
+    let cmds = [(pd, NP::A(dat)), (pi, NP::H(0)), (pi2, NP::H(2))];
+    let mut parts = vec![];
+    let mut cur: Option<u64> = None;
+    for k in ORDERS[ord as usize] {
+        let (pl, c) = cmds[k];
+        if cur != Some(pl) {
+            parts.push(NP::T(pl));
+            cur = Some(pl);
+        }
+        parts.push(c);
+    }
+    naming_patch_of(cat, ex, chunk, &parts)
 }
 
 fn list_files(root: &std::path::Path, rel: &str, out: &mut Vec<String>) {
@@ -266,6 +357,48 @@ fn list_files(root: &std::path::Path, rel: &str, out: &mut Vec<String>) {
             }
         }
     }
+}
+
+/// `read=` the names `Repository::{index,index2,dat}_filename` compute for the platforms
+/// `plats = [of .index, of .index2, of .dat]`; `patch=` the files `ZiPatch::apply` creates for `patch`
+fn names_answer(tag: &str, c: Category, ex: u64, chunk: u64, dat: u64, plats: [Platform; 3], patch: Vec<u8>) -> String {
+    let repo = |p: Platform| Repository {
+        name: if ex == 0 { "ffxiv".into() } else { format!("ex{}", ex) },
+        platform: p,
+        repo_type: if ex == 0 { RepositoryType::Base } else { RepositoryType::Expansion { number: ex as i32 } },
+        version: None,
+    };
+    let [pi, pi2, pd] = plats;
+    let (ri, ri2, rd) = (repo(pi), repo(pi2), repo(pd));
+    let read = format!(
+        "{}/{},{}/{},{}/{}",
+        ri.name,
+        ri.index_filename(chunk as u8, c),
+        ri2.name,
+        ri2.index2_filename(chunk as u8, c),
+        rd.name,
+        rd.dat_filename(chunk as u8, c, dat as u32)
+    );
+    // patch side: which files does applying a patch for the same ids touch?
+    // (tmpfs when there is one: thousands of small trees per second)
+    let tmp = crate::c03fs::Scratch::new(tag);
+    let root = tmp.path().join("game");
+    std::fs::create_dir_all(&root).unwrap();
+    let pf = tmp.path().join("p.patch");
+    std::fs::write(&pf, patch).unwrap();
+    let res = physis::patch::ZiPatch::apply(root.to_str().unwrap(), pf.to_str().unwrap());
+    let mut files = vec![];
+    list_files(&root.join("sqpack"), "", &mut files);
+    files.sort();
+    // order: dat, index, index2 sorts lexicographically as dat < index < index2 — reorder to index,index2,dat
+    let pick = |suffix: &str| files.iter().find(|f| f.ends_with(suffix)).cloned().unwrap_or("-".into());
+    let patch = if res.is_ok() && files.len() == 3 {
+        let d = files.iter().find(|f| f.contains(".dat")).cloned().unwrap_or("-".into());
+        format!("{},{},{}", pick(".index"), pick(".index2"), d)
+    } else {
+        format!("apply-{}:{}", if res.is_ok() { "ok" } else { "err" }, files.join(";"))
+    };
+    format!("read={} patch={}", read, patch)
 }
 
 pub fn run(case: &str, input: &str) -> String {
@@ -322,40 +455,23 @@ pub fn run(case: &str, input: &str) -> String {
             let (Some(c), Some(p)) = (category(a[0]), platform(a[3])) else { return "bad-case".into() };
             let (cat, ex, chunk, plat, dat) = (a[0], a[1], a[2], a[3], a[4]);
             guarded(move || {
-                let repo = Repository {
-                    name: if ex == 0 { "ffxiv".into() } else { format!("ex{}", ex) },
-                    platform: p,
-                    repo_type: if ex == 0 { RepositoryType::Base } else { RepositoryType::Expansion { number: ex as i32 } },
-                    version: None,
-                };
-                let read = format!(
-                    "{}/{},{}/{},{}/{}",
-                    repo.name,
-                    repo.index_filename(chunk as u8, c),
-                    repo.name,
-                    repo.index2_filename(chunk as u8, c),
-                    repo.name,
-                    repo.dat_filename(chunk as u8, c, dat as u32)
-                );
-                // patch side: which files does applying a patch for the same ids touch?
-                let tmp = TempDir::new(&format!("c15-{}-{}-{}-{}-{}", cat, ex, chunk, plat, dat));
-                let root = tmp.path().join("game");
-                std::fs::create_dir_all(&root).unwrap();
-                let pf = tmp.path().join("p.patch");
-                std::fs::write(&pf, naming_patch(cat, ex, chunk, plat, dat)).unwrap();
-                let res = physis::patch::ZiPatch::apply(root.to_str().unwrap(), pf.to_str().unwrap());
-                let mut files = vec![];
-                list_files(&root.join("sqpack"), "", &mut files);
-                files.sort();
-                // order: dat, index, index2 sorts lexicographically as dat < index < index2 — reorder to index,index2,dat
-                let pick = |suffix: &str| files.iter().find(|f| f.ends_with(suffix)).cloned().unwrap_or("-".into());
-                let patch = if res.is_ok() && files.len() == 3 {
-                    let d = files.iter().find(|f| f.contains(".dat")).cloned().unwrap_or("-".into());
-                    format!("{},{},{}", pick(".index"), pick(".index2"), d)
-                } else {
-                    format!("apply-{}:{}", if res.is_ok() { "ok" } else { "err" }, files.join(";"))
-                };
-                format!("read={} patch={}", read, patch)
+                let tag = format!("c15-{}-{}-{}-{}-{}", cat, ex, chunk, plat, dat);
+                names_answer(&tag, c, ex, chunk, dat, [p.clone(), p.clone(), p], naming_patch(cat, ex, chunk, plat, dat))
+            })
+        }
+        ("names2", 8) => {
+            // names2 <cat> <ex> <chunk> <dat> <platform of .index> <of .index2> <of .dat> <order 0..5>
+            let (Some(c), Some(pi), Some(pi2), Some(pd)) = (category(a[0]), platform(a[4]), platform(a[5]), platform(a[6])) else {
+                return "bad-case".into();
+            };
+            if a[7] >= 6 {
+                return "bad-case".into();
+            }
+            let (cat, ex, chunk, dat) = (a[0], a[1], a[2], a[3]);
+            let patch = naming_patch_split(cat, ex, chunk, dat, a[4], a[5], a[6], a[7]);
+            guarded(move || {
+                let tag = format!("c15s-{}-{}-{}-{}", cat, ex, chunk, dat);
+                names_answer(&tag, c, ex, chunk, dat, [pi, pi2, pd], patch)
             })
         }
         ("sort", _) => {
